@@ -59,6 +59,8 @@ def virt(ctx, behs, name="virt"):
             break
     ctx.cov["virtual_seconds_simulated"] = sum(e["virtualMs"] for e in ends) // 1000
     ctx.cov["deadline_calls_checked"] = sum(1 for r in rows if r.get("ev") == "Conn" and r["op"] == "dl")
+    ctx.cov["datagrams_delivered_inside_WriteTo"] = sum(1 for b in behs for i, st in enumerate(b) if st["a"] == "TReplyMid")
+    ctx.cov["failed_sends_virtual"] = sum(1 for r in rows if r.get("ev") == "Conn" and r["op"] == "we")
     ctx.cov["fast_closes_observed"] = sum(1 for r in rows if r.get("ev") == "Conn" and r.get("why") == "fast")
     return rows
 
@@ -93,6 +95,9 @@ def run(ctx):
             raise vlib.Inconclusive("MC_UdpNatC14Bug.cfg: expected TLC to find FastCloseRule violated, got %r" % rb_.violated)
     # 2. virtual time
     vb = U.gen(ctx, "Gen_UdpNatVirt.cfg", 120 if q else 2000, seed=ctx.seed + 31)
+    # + focused: a later DNS query during which a port-53 datagram arrives INSIDE natconn.WriteTo (gate in the fake conn's
+    #   SetReadDeadline), sends that fail
+    vb += U.gen(ctx, "Gen_UdpNatVirtMid.cfg", 40 if q else 300, seed=ctx.seed + 77)
     rows = virt(ctx, vb)
     if rows is not None:
         ctx.cov["evaluations"] += len(vb)
